@@ -83,11 +83,19 @@ func Float(t *rapid.T, label string) float64 {
 
 var runePool = []rune("abcxyzABC019 _-.,é狐犬ß\n\t\r\ufffd  ")
 
+// exoticRunes: white space that is not ASCII (NBSP, ideographic space, line
+// and paragraph separators, NEL, vertical tab, form feed), letters with
+// special case mappings, combining marks, zero-width and direction marks, and
+// characters of every UTF-8 length.
+var exoticRunes = []rune("\u00a0\u3000\u2028\u2029\u0085\v\f\u2003\u1680\ufeff\u200b\u200d\u200fİıǅǆſẞΣςσÅÅ\u0301\u0308ﬁ𐐷𐐏😀\U0010ffff\u07ff\u0800\uffff\u007f\u0080aA z")
+
 // Text draws a string free of NUL and of invalid UTF-8.
 func Text(t *rapid.T, label string) string {
-	switch rapid.IntRange(0, 4).Draw(t, label+"_cls") {
+	switch rapid.IntRange(0, 5).Draw(t, label+"_cls") {
 	case 0, 1:
 		return rapid.SampledFrom(BoundaryStrings).Draw(t, label)
+	case 5:
+		return string(rapid.SliceOfN(rapid.SampledFrom(exoticRunes), 1, 6).Draw(t, label))
 	}
 	rs := rapid.SliceOfN(rapid.SampledFrom(runePool), 0, 8).Draw(t, label)
 	return string(rs)
